@@ -142,6 +142,15 @@ func ParseResponse(data []byte, req *http.Request) (resp *Response, err error) {
 	if err != nil {
 		return nil, errors.Join(errInvalidResponse, fmt.Errorf("failed to read response: %w", err))
 	}
+	// The body is part of the stored bytes: read it now, so that a truncated or
+	// otherwise damaged entry is rejected here (and treated as a miss) instead of
+	// being handed to the caller as a response whose body fails half way.
+	body, err := io.ReadAll(r.Body)
+	_ = r.Body.Close()
+	if err != nil {
+		return nil, errors.Join(errInvalidResponse, fmt.Errorf("failed to read response body: %w", err))
+	}
+	r.Body = io.NopCloser(bytes.NewReader(body))
 	// The serialised form may carry connection-level fields that belong to the
 	// dump, not to the stored response (DumpResponse writes "Connection: close"
 	// for a close-delimited HTTP/1.0 response); hop-by-hop fields are never
